@@ -70,8 +70,14 @@ impl SizeManifest {
             tags.push(tag);
         }
 
-        // Parse entries
-        let mut entries = Vec::with_capacity(header.entry_count() as usize);
+        // Parse entries. The count comes from the header, so cap the
+        // pre-allocation by what the remaining input can hold.
+        let entry_size = (header.ekey_size() as usize + header.esize_bytes() as usize).max(1);
+        let remaining = data
+            .len()
+            .saturating_sub(usize::try_from(cursor.position()).unwrap_or(data.len()));
+        let mut entries =
+            Vec::with_capacity((header.entry_count() as usize).min(remaining / entry_size));
         for _ in 0..header.entry_count() {
             let entry = SizeEntry::read_options(&mut cursor, binrw::Endian::Big, &header)
                 .map_err(SizeError::from)?;
